@@ -26,7 +26,7 @@ impl Prop for C10 {
 
     fn profiles(tier: Tier) -> Vec<Profile> {
         match tier {
-            Tier::Quick => vec![prof("mixed", 30_000), prof("twins", 15_000)],
+            Tier::Quick => vec![prof("mixed", 120_000), prof("twins", 60_000)],
             Tier::Thorough => vec![prof("mixed", 1_000_000), prof("twins", 500_000)],
         }
     }
@@ -35,8 +35,8 @@ impl Prop for C10 {
         let mut subj = MachineParams {
             max_states: 4,
             p_action: 0.8,
-            p_limit: 0.5,
-            p_counter: 0.6,
+            p_limit: 0.7,
+            p_counter: 0.7,
             w_end: 1,
             w_signal: 0,
             prob_style: 1,
@@ -46,12 +46,16 @@ impl Prop for C10 {
         subj.p_trans[8] = 0.5;
         subj.p_trans[9] = 0.6;
         subj.p_trans[12] = 0.0;
+        subj.p_trans[4] = 0.6;
+        subj.p_trans[6] = 0.6;
+        subj.p_trans[10] = 0.6;
         let mut neigh = subj.clone();
         neigh.prob_style = 0;
         let hp = HistParams {
             min_calls: 2,
             max_calls: 40,
             max_batch: 6,
+            ev_weights: [2, 2, 2, 3, 6, 2, 6, 3, 6, 3],
             ..HistParams::default()
         };
         let twins = profile == "twins";
